@@ -13,13 +13,14 @@ PROPS = {
     "C02": dict(
         title="tree constraints (eq/diseq programs)",
         props_module="PvModel.Props.C02",
+        props_extra=["PvModel.Props.C02Program"],
         rule="pure tree programs (1-6 atoms ==/!= over <=2 query + <=3 hidden variables, nested conde/fresh, compounds), each run as written and "
              "under random permutations of every conjunction; targets: subsuming pairs, disequalities simplified/violated by later equalities; "
              "observable: canonical answer terms + truth table of the reported constraints over an 8-element universe; non-trivial = an answer "
              "carries constraints or there are >=2 answers; distinct = distinct case lines",
         trusted=SEARCH_TRUST,
         assumptions=["the oracle decides existence of hidden-variable values with an independent Robinson unifier (disequalities over an infinite universe)"],
-        open=["C02_answer_instances (lifting the state invariant through reification/purification to ground instances of reported answers) is carried by the correspondence and the oracle, not yet by a theorem"],
+        open=["C02_program_exact lifts the state invariant through conde/fresh on the engine (delivered states describe exactly the program's solutions); the last step — reification/purification of a delivered state into the reported answer term and constraints (C03 proves its shape) preserves the ground instances — is carried by the correspondence and the oracle, not yet by a theorem"],
     ),
     "C05": dict(
         title="depth-first search order",
@@ -85,7 +86,7 @@ PROPS = {
              "answer is an integer tuple that extends to a solution; non-trivial = >1 solution or >=1 answer; distinct = distinct case lines; (2) programs with at most ONE propagator (whose state representation does not depend on the hash-iteration order) also raw with a STATE DUMP (`rst` case lines): substitution of every program variable, domain store and constraint store (kind + walk*ed operands, sorted) of every state the body goal delivers, real State vs model State",
         trusted=SEARCH_TRUST,
         assumptions=[],
-        open=["the global exactness theorems (C16_state_sound, C17_no_solution_lost) cover every constraint kind except distinctfd / distinctfd2: for those the end-to-end statement is carried by the correspondence and the brute-force oracle", "that every domain-store key is unbound (so labelling empties the domain store), the normal form of stored disequalities, and the assembly of labelling + reification into the reported answer are carried by the correspondence"],
+        open=["distinctfd on an OPEN-TAILED list (the tail variable is taken for an element) is outside the global exactness theorems (CstOK requires a proper list term)", "that every domain-store key is unbound (so labelling empties the domain store), the normal form of stored disequalities, and the assembly of labelling + reification into the reported answer are carried by the correspondence"],
     ),
     "C17": dict(
         title="CLP(FD) labelling completeness and uniqueness",
@@ -94,7 +95,7 @@ PROPS = {
              "disjunction path it satisfies; non-trivial = >1 solution or >=1 answer; distinct = distinct case lines",
         trusted=SEARCH_TRUST,
         assumptions=[],
-        open=["the global exactness theorems (C16_state_sound, C17_no_solution_lost) cover every constraint kind except distinctfd / distinctfd2: for those the end-to-end statement is carried by the correspondence and the brute-force oracle", "that every domain-store key is unbound (so labelling empties the domain store), the normal form of stored disequalities, and the assembly of labelling + reification into the reported answer are carried by the correspondence"],
+        open=["distinctfd on an OPEN-TAILED list (the tail variable is taken for an element) is outside the global exactness theorems (CstOK requires a proper list term)", "that every domain-store key is unbound (so labelling empties the domain store), the normal form of stored disequalities, and the assembly of labelling + reification into the reported answer are carried by the correspondence"],
     ),
     "C19": dict(
         title="CLP(Z) plusz/timesz",
@@ -129,8 +130,7 @@ PROPS = {
              "model; non-trivial = >=2 answers; distinct = distinct case lines",
         trusted=SEARCH_TRUST,
         assumptions=[],
-        open=["conjunct reordering for distinctfd atoms (outside the fragment of C04_fd_conj_comm) is carried by the correspondence and the oracle",
-              "reordering inside programs with relation calls / committed choice (outside the conj/conde/fresh programs of C04_program_comm) is checked by the oracle only"],
+        open=["reordering inside programs with relation calls / committed choice (outside the conj/conde/fresh programs of C04_program_comm) is checked by the oracle only"],
     ),
     "C09": dict(
         title="query iteration: lazy, fused, deterministic",
@@ -254,7 +254,7 @@ PROPS = {
              "case; distinct = distinct case lines",
         trusted=SEARCH_TRUST + ["panic sites are compared as a small enum derived from the panic message; isize overflow is outside the property (well-formedness clause) and not modelled"],
         assumptions=[],
-        open=["C23_state_machine covers the constraint state machine (all kinds but distinctfd) through the re-entrant loop; distinctfd, project and the goal-level sites (assert-operand, unbound-domain) are carried by the correspondence on every generator"],
+        open=["C23_state_machine covers the constraint state machine through the re-entrant loop (with distinctfd: only its own three panic sites stay reachable, and only from unsatisfiable conjunctions — C23_state_machine_distinctfd); that distinctfd over FD variables / integers bound to integers only never panics, project and the goal-level sites (assert-operand, unbound-domain) are carried by the correspondence on every generator"],
     ),
     "C01": dict(
         title="unification (State::unify vs unifyF)",
